@@ -224,6 +224,15 @@ func TestWorker(t *testing.T) {
 	}
 
 	switch mode {
+	case "hashes":
+		// determinism self-test: one line per run, compared across processes and GOMAXPROCS by tools/determinism.sh
+		base, idx0, n := envInt("VERIF_BASE", 1), envInt("VERIF_SEED0", 0), envInt("VERIF_N", 100)
+		for i := int64(0); i < n; i++ {
+			seed := runSeed(base, idx0+i)
+			res := engine.Run(t, gen.Generate(prop, seed))
+			emit(map[string]any{"seed": seed, "hash": fmt.Sprintf("%x", res.Hash), "steps": res.Steps})
+		}
+		return
 	case "replay":
 		replay(t, prop, emit)
 		return
